@@ -233,7 +233,7 @@ func c18(args []string) int {
 	rounds := f.N(290, 4600)
 	maxLen := 3
 	if f.Thorough() {
-		maxLen = 5
+		maxLen = 4 // 11 operations: 16 105 scripts x 5 capability sets; the remaining requests get random longer scripts
 	}
 	// enumerate scripts exhaustively up to maxLen across rounds: script index advances globally
 	scriptIdx := 0
